@@ -363,3 +363,193 @@ func (ex *Exec) forkIntrinsic(s *astate, fr *aframe, x *ssa.Call) []*astate {
 func isSignedInt(t types.Type) bool { return isSigned(t) }
 
 var _ = strings.HasPrefix
+
+// ---------------------------------------------------------------------------------------
+// Constant package-level maps: a map variable that is built once by the package initialiser
+// from constant keys and values and never written elsewhere is a finite function. A lookup
+// with an unknown integer key is split into one state per key (key pinned, value and ok
+// known) plus one state for "any other key" (keys excluded, zero value, ok false).
+
+type constMapEntry struct {
+	key uint64
+	val *ssa.Const
+}
+
+var constMapCache = map[*ssa.Global][]constMapEntry{}
+var constMapBad = map[*ssa.Global]bool{}
+
+func constMapOf(g *ssa.Global) ([]constMapEntry, bool) {
+	if e, ok := constMapCache[g]; ok {
+		return e, true
+	}
+	if constMapBad[g] {
+		return nil, false
+	}
+	bad := func() ([]constMapEntry, bool) { constMapBad[g] = true; return nil, false }
+	if g.Pkg == nil {
+		return bad()
+	}
+	var made ssa.Value
+	// exactly one store to g in the whole package, in init, of a map made there
+	for _, mem := range g.Pkg.Members {
+		fn, ok := mem.(*ssa.Function)
+		if !ok {
+			continue
+		}
+		fns := append([]*ssa.Function{fn}, fn.AnonFuncs...)
+		for _, f := range fns {
+			for _, b := range f.Blocks {
+				for _, in := range b.Instrs {
+					switch x := in.(type) {
+					case *ssa.Store:
+						if x.Addr == ssa.Value(g) {
+							if f.Name() != "init" || made != nil {
+								return bad()
+							}
+							made = x.Val
+						}
+					case *ssa.MapUpdate:
+						if ld, ok := x.Map.(*ssa.UnOp); ok && ld.X == ssa.Value(g) {
+							return bad() // updated through the variable
+						}
+					}
+				}
+			}
+		}
+	}
+	// methods of the package's types may also touch g
+	for _, mem := range g.Pkg.Members {
+		if t, ok := mem.(*ssa.Type); ok {
+			for _, ms := range []*types.MethodSet{g.Pkg.Prog.MethodSets.MethodSet(t.Type()), g.Pkg.Prog.MethodSets.MethodSet(types.NewPointer(t.Type()))} {
+				for i := 0; i < ms.Len(); i++ {
+					f := g.Pkg.Prog.MethodValue(ms.At(i))
+					if f == nil {
+						continue
+					}
+					for _, b := range f.Blocks {
+						for _, in := range b.Instrs {
+							switch x := in.(type) {
+							case *ssa.Store:
+								if x.Addr == ssa.Value(g) {
+									return bad()
+								}
+							case *ssa.MapUpdate:
+								if ld, ok := x.Map.(*ssa.UnOp); ok && ld.X == ssa.Value(g) {
+									return bad()
+								}
+							}
+						}
+					}
+				}
+			}
+		}
+	}
+	mk, ok := made.(*ssa.MakeMap)
+	if !ok {
+		return bad()
+	}
+	var out []constMapEntry
+	for _, r := range *mk.Referrers() {
+		switch x := r.(type) {
+		case *ssa.MapUpdate:
+			k, okK := x.Key.(*ssa.Const)
+			v, okV := x.Value.(*ssa.Const)
+			if !okK || !okV || x.Map != ssa.Value(mk) {
+				return bad()
+			}
+			kv, okI := ConstInt(k)
+			if !okI || kv < 0 {
+				return bad()
+			}
+			out = append(out, constMapEntry{uint64(kv), v})
+		case *ssa.Store:
+			if x.Val != ssa.Value(mk) || x.Addr != ssa.Value(g) {
+				return bad()
+			}
+		case *ssa.DebugRef:
+		default:
+			return bad()
+		}
+	}
+	if len(out) == 0 || len(out) > 256 {
+		return bad()
+	}
+	constMapCache[g] = out
+	return out, true
+}
+
+// forkLookup handles m[k] / v, ok := m[k] on a constant package-level map with an integer key.
+func (ex *Exec) forkLookup(s *astate, fr *aframe, x *ssa.Lookup) []*astate {
+	if _, isMap := x.X.Type().Underlying().(*types.Map); !isMap {
+		return nil
+	}
+	ld, ok := x.X.(*ssa.UnOp)
+	if !ok || ld.Op != token.MUL {
+		return nil
+	}
+	g, ok := ld.X.(*ssa.Global)
+	if !ok {
+		return nil
+	}
+	entries, ok := constMapOf(g)
+	if !ok {
+		return nil
+	}
+	key := ex.val(s, fr, x.Index)
+	if key.K != AInt {
+		return nil
+	}
+	vt := x.X.Type().Underlying().(*types.Map).Elem()
+	result := func(v AVal, found bool) AVal {
+		if x.CommaOk {
+			return AVal{K: ATuple, Elems: []AVal{v, boolVal(found)}}
+		}
+		return v
+	}
+	if k, isK := key.ConstVal(); isK {
+		for _, e := range entries {
+			if e.key == k {
+				fr.env[x] = result(constVal(e.val), true)
+				fr.pc++
+				return []*astate{s}
+			}
+		}
+		fr.env[x] = result(zeroOf(vt), false)
+		fr.pc++
+		return []*astate{s}
+	}
+	src, plain := plainSource(key.Bits)
+	if !plain {
+		return nil
+	}
+	signed := isSigned(x.Index.Type())
+	var out []*astate
+	// any other key
+	other := s.clone()
+	for _, e := range entries {
+		other.exclude(src, int64(e.key))
+	}
+	of := other.frames[len(other.frames)-1]
+	of.env[x] = result(zeroOf(vt), false)
+	of.pc++
+	out = append(out, other)
+	for i, e := range entries {
+		c := s
+		if i != len(entries)-1 {
+			c = s.clone()
+		}
+		if rg, okR := c.rangeOf(key.Bits, signed); okR && (int64(e.key) < rg.lo || int64(e.key) > rg.hi) {
+			if c == s {
+				// keep s alive for the caller's bookkeeping: mark infeasible by an empty step
+				continue
+			}
+			continue
+		}
+		c.narrow(key.Bits, signed, int64(e.key), int64(e.key))
+		cf := c.frames[len(c.frames)-1]
+		cf.env[x] = result(constVal(e.val), true)
+		cf.pc++
+		out = append(out, c)
+	}
+	return out
+}
